@@ -252,6 +252,12 @@ var blockers = map[string]string{
 	"callback-loop":       "host.Call(func() {\n\tfor {\n\t}\n})\n",
 	"callback-blocked":    "ch := make(chan int)\nhost.Call(func() {\n\t<-ch\n})\n",
 	"apply-in-loop":       "s := 0\nfor {\n\ts = host.Apply(func(x int) int { return x + 1 }, s)\n}\n",
+	// finite but astronomically long: only range loops, so that everything runs inside the
+	// frames the VM creates for range bodies
+	"nested-range-slices": "a := make([]int, 4000)\ns := 0\nfor range a {\n\tfor range a {\n\t\tfor _, v := range a {\n\t\t\ts += v\n\t\t}\n\t}\n}\n_ = s\n",
+	"nested-range-string": "str := \"\"\nfor i := 0; i < 12; i++ {\n\tstr += str + \"é\"\n}\nn := 0\nfor range str {\n\tfor range str {\n\t\tfor _, r := range str {\n\t\t\tn += int(r)\n\t\t}\n\t}\n}\n_ = n\n",
+	"nested-range-map":    "m := map[int]int{}\nfor i := 0; i < 3000; i++ {\n\tm[i] = i\n}\ns := 0\nfor range m {\n\tfor range m {\n\t\tfor k, v := range m {\n\t\t\ts += k + v\n\t\t}\n\t}\n}\n_ = s\n",
+	"nested-range-int":    "s := 0\nfor range 4000 {\n\tfor range 4000 {\n\t\tfor i := range 4000 {\n\t\t\ts += i\n\t\t}\n\t}\n}\n_ = s\n",
 }
 
 var blockerNames = func() []string {
@@ -323,6 +329,7 @@ var templateBlockers = map[string]string{
 	"script-context":   "<script>var a = [{% for %}{{ 1 }},{% end %}];</script>",
 	"attribute":        "<a href=\"{% for %}x{% end %}\">",
 	"macro-recursion":  "{% macro R(n int) %}{% for %}{% if n < 0 %}{% break %}{% end %}{% end %}{% end %}{{ R(1) }}",
+	"nested-for-in":    "{% a := make([]int, 4000) %}{% for x in a %}{% for y in a %}{% for z in a %}{% if x+y+z > 0 %}.{% end %}{% end %}{% end %}{% end %}",
 }
 
 var templateBlockerNames = func() []string {
